@@ -130,3 +130,14 @@ def c06(tier):
                   "and two witness connections keep being served correctly; distinct = input-shape signatures",
                   t0, tier, SIM_ASSUME + ["gcc ASan/UBSan see only heap/stack/global red zones and the UB kinds they instrument"],
                   min_events={"frames_generated": 20000, "http_status_400": 100, "ws_close_1002": 100})
+
+
+def _unit(pid, modname):
+    def run(tier):
+        import importlib
+        mod = importlib.import_module("cjv." + modname)
+        return mod.main(tier)
+    CHECKS[pid] = run
+
+
+_unit("C18", "chk_c18")
